@@ -245,6 +245,23 @@ Proof.
 Qed.
 Print Assumptions C07_nongeneric_pedantic_class_positionwise.
 
+(* partial form of the per-call rule for methods: it holds for methods of classes that are not
+   @pedantic_class-decorated (guard: cd_kind = KPlain, the negation of the K5b matcher on the model side) *)
+Theorem C07_same_call_partial : forall ctx w st slot i cd m sg args ret p q,
+  st_get st slot = Some i -> nth_error (w_classes w) (i_cls i) = Some cd -> cd_kind cd = KPlain ->
+  nth_error (cd_methods cd) m = Some sg -> well_formed_call sg args ->
+  In p (matches sg args ret) -> In q (matches sg args ret) ->
+  same_tvar (tv_id (mp_tv p)) (mp_tv p) (matches sg args ret) -> mp_tv q = mp_tv p ->
+  related (class_of (mp_val p)) (class_of (mp_val q)) = false ->
+  fst (run_step cfg ctx w st (SCall slot m args ret)) <> ROk.
+Proof.
+  intros ctx w st slot i cd m sg args ret p q Hg Hc Hk Hm Hw Hp Hq Hs Hpq Hun.
+  rewrite (C07_no_leak_plain_method ctx w st slot i cd m sg args ret Hg Hc Hk Hm).
+  pose proof (C07_unrelated_rejected ctx sg args ret p q Hw Hp Hq Hs Hpq Hun) as Hr.
+  destruct (call ctx sg args ret) as [[]|e]; [now elim Hr|discriminate].
+Qed.
+Print Assumptions C07_same_call_partial.
+
 (* K5c.  Full statement: "bindings made during one call never influence a later call of a ... method"
    - false on instances of generic classes for a TypeVar that is not a type parameter of the class:
    two(a='x', b='y') then two(a=1, b=2) raises, although the second call alone is accepted. *)
@@ -260,6 +277,25 @@ Proof.
   repeat split; vm_compute; reflexivity.
 Qed.
 Print Assumptions C07_no_leak_refuted_method_level_typevar.
+
+(* partial form of "no leak" on generic instances (guard inst_method: every TypeVar of the method is a type
+   parameter of the class - the negation of the K5c matcher): whatever happened between the creation and
+   the call, and whatever happened before the creation, the outcome is the same *)
+Theorem C07_no_leak_partial : forall ctx w h1 h1' h2 h2' slot c xs iargs iargs' cd ids m sg args ret,
+  nth_error (w_classes w) c = Some cd -> cd_kind cd = KGeneric ids ->
+  nth_error (cd_methods cd) m = Some sg ->
+  well_formed_inst ids xs -> inst_method ids sg = true ->
+  fst (run_step cfg ctx w (snd (run_from cfg ctx w [] h1)) (SNew slot c xs iargs)) = ROk ->
+  fst (run_step cfg ctx w (snd (run_from cfg ctx w [] h1')) (SNew slot c xs iargs')) = ROk ->
+  forallb (fun s => negb (is_new_on slot s)) h2 = true -> forallb (fun s => negb (is_new_on slot s)) h2' = true ->
+  last (run_history cfg ctx w (h1 ++ SNew slot c xs iargs :: h2 ++ [SCall slot m args ret])) RAbsent
+  = last (run_history cfg ctx w (h1' ++ SNew slot c xs iargs' :: h2' ++ [SCall slot m args ret])) RAbsent.
+Proof.
+  intros ctx w h1 h1' h2 h2' slot c xs iargs iargs' cd ids m sg args ret Hc Hk Hm Hw Him Hn Hn' Hh Hh'.
+  rewrite (C07_instance_iff ctx w h1 h2 slot c xs iargs cd ids m sg args ret Hc Hk Hm Hw Him Hn Hh).
+  now rewrite (C07_instance_iff ctx w h1' h2' slot c xs iargs' cd ids m sg args ret Hc Hk Hm Hw Him Hn' Hh').
+Qed.
+Print Assumptions C07_no_leak_partial.
 
 (* ===================================== the hypotheses are satisfiable =============================== *)
 Definition tvT : tvar := {| tv_id := 11; tv_constraints := [CInt; CStr]; tv_bound := None; tv_contravariant := false |}.
